@@ -364,9 +364,10 @@ impl Oracle for CommitmentOracle {
 						self.pending.entry((ci, side)).or_default().push(exp);
 					}
 				},
-				Obs::Restarted { node, lost_delivery, .. } => {
-					// the message being handled when the node died was never durably processed
-					if let Some((_from, wire)) = lost_delivery {
+				Obs::Restarted { node, lost_delivery, lost_earlier, .. } => {
+					// the message being handled when the node died was never durably processed; a deferred-mode node
+					// also forgets everything it handled since its manager was last written (latest first)
+					for (_from, wire) in lost_delivery.iter().chain(lost_earlier.iter().rev()) {
 						if let Some(cid) = wire.channel_id() {
 							if let Some(ci) = self.chan_idx(&cid) {
 								if let Some(side) = self.side(ci, *node) {
@@ -1111,10 +1112,18 @@ impl Oracle for PersistOrderOracle {
 	fn observe(&mut self, _w: &World, obs: &[Obs]) -> Result<(), Failure> {
 		self.scan(obs, false)
 	}
-	fn at_end(&mut self, _w: &mut World) -> Result<String, Failure> {
+	fn at_end(&mut self, w: &mut World) -> Result<String, Failure> {
 		for (k, v) in self.outstanding.iter() {
 			if !v.is_empty() {
 				return Err(Self::fail("harness", format!("updates {:?} of node {} chan {} never completed by the harness", v, k.0, k.1)));
+			}
+		}
+		for (i, n) in w.nodes.iter().enumerate() {
+			if n.deferred && n.mon.pending_operation_count() > 0 {
+				return Err(Self::fail(
+					"deferred-operations-flushed",
+					format!("node {} is quiescent with {} queued monitor operations its background task was never asked to flush (no manager persistence requested)", i, n.mon.pending_operation_count()),
+				));
 			}
 		}
 		Ok(String::new())
@@ -1610,6 +1619,8 @@ impl Oracle for ForgedPointOracle {
 pub struct OpenPersistOracle {
 	/// (node, channel) -> initial persist outstanding
 	outstanding: BTreeMap<(usize, ChannelId), bool>,
+	/// nodes that were restarted (their monitors were loaded from disk, so a missing record means nothing)
+	restarted: std::collections::BTreeSet<usize>,
 }
 impl Oracle for OpenPersistOracle {
 	fn name(&self) -> &'static str {
@@ -1631,8 +1642,17 @@ impl Oracle for OpenPersistOracle {
 				},
 				Obs::Restarted { node, .. } => {
 					self.outstanding.retain(|(n, _), _| n != node);
+					self.restarted.insert(*node);
 				},
 				Obs::Sent { from, wire: Wire::ChannelReady(m), .. } => {
+					// deferred mode: a monitor that was never handed to Persist at all is not durable either
+					let never_persisted = w.nodes[*from].deferred && !self.restarted.contains(from) && !self.outstanding.contains_key(&(*from, m.channel_id));
+					if never_persisted {
+						return Err(Failure::new(
+							"open-persist-order",
+							format!("node {} (deferred ChainMonitor) released channel_ready before the channel's monitor was handed to Persist at all", from),
+						));
+					}
 					if self.outstanding.get(&(*from, m.channel_id)).copied().unwrap_or(false) {
 						return Err(Failure::new(
 							"open-persist-order",
@@ -1642,6 +1662,17 @@ impl Oracle for OpenPersistOracle {
 					crate::runner::witness("c09-open-channel-ready-checked");
 				},
 				Obs::Broadcast { node, b, .. } if b.kinds.iter().any(|k| k == "Funding") => {
+					if w.nodes[*node].deferred && !self.restarted.contains(node) {
+						for c in w.nodes[*node].cm.list_channels() {
+							let is_this = c.funding_txo.map(|f| b.txs.iter().any(|t| t.compute_txid() == f.txid)).unwrap_or(false);
+							if is_this && !self.outstanding.contains_key(&(*node, c.channel_id)) {
+								return Err(Failure::new(
+									"open-persist-order",
+									format!("node {} (deferred ChainMonitor) broadcast the funding transaction before the channel's monitor was handed to Persist at all", node),
+								));
+							}
+						}
+					}
 					// the funder's channel: the one whose funding transaction this is
 					for ((n, cid), out) in self.outstanding.iter() {
 						if n == node && *out {
